@@ -153,12 +153,20 @@ class Categorize(Factory, Container):
 
     @inheritdoc(Container)
     def zero(self):
-        return Categorize(self.quantity, self.value)
+        return self._likeSelf(Categorize(self.quantity, self.value))
+
+    def _likeSelf(self, out):
+        # a container without a value template (made by ``ed`` or from JSON) knows its content type and the name of
+        # its content's quantity only through these attributes; keep them while it is empty
+        if self.value is None:
+            out.contentType = self.contentType
+            out.binsName = getattr(self, "binsName", None)
+        return out
 
     @inheritdoc(Container)
     def __add__(self, other):
         if isinstance(other, Categorize):
-            out = Categorize(self.quantity, self.value)
+            out = self._likeSelf(Categorize(self.quantity, self.value))
             out.entries = self.entries + other.entries
             out.bins = {}
             for k in self.keySet.union(other.keySet):
@@ -301,7 +309,7 @@ class Categorize(Factory, Container):
             else:
                 binsName = None
         else:
-            binsName = None
+            binsName = getattr(self, "binsName", None)
 
         if len(self.bins) > 0:
             bins_type = list(self.bins.values())[0].name
@@ -359,6 +367,7 @@ class Categorize(Factory, Container):
                 raise JsonFormatException(json, "Categorize.bins")
 
             out = Categorize.ed(entries, contentType, **bins)
+            out.binsName = dataName
             out.quantity.name = nameFromParent if name is None else name
             return out.specialize()
 
